@@ -126,6 +126,10 @@ def run(ctx):
     # every node the sanitizer emits has been through node_action / clean_element_attributes: the children of kept AND of ignored (unwrapped)
     # elements are each passed to clean_node
     _C15.traversal_rules(ctx, w, "C14.traversal")
+    # the sanitizer removes a node with detach() and walks siblings through the parent link: a node that the tree builder left without a parent link (or
+    # with a stale one) cannot be removed or visited. The link pairing of the tree operations (C17.tree-links) is part of this check
+    from . import C17 as _C17
+    _C17.tree_link_rule(ctx, w, "C14.tree-links")
     fc = w.fn(CL + "<impl ruma_html::sanitizer_config::SanitizerConfig>::clean_node")
     dex2 = D.Dex(w.lookup, adt_discr=w.adt_discr, unroll=1, effects=lambda n: n.startswith("ruma_html::"))
     paths = dex2.paths(fc, [D.sym("self"), D.sym("node"), D.sym("depth")])
